@@ -18,6 +18,11 @@ NhdrSize == 12
 Pad4(n) == ((n + 3) \div 4) * 4
 NoteSize(namesz, descsz) == NhdrSize + Pad4(namesz) + Pad4(descsz)
 
+\* The rival reading the property rules out: name and descriptor padded to 8 bytes (what GNU binutils applies to extents
+\* whose p_align / sh_addralign is 8).  Used only to show that the generated extents tell the two readings apart.
+Pad8(n) == ((n + 7) \div 8) * 8
+NoteSize8(namesz, descsz) == Pad8(NhdrSize + namesz) + Pad8(descsz)
+
 \* A note is present at `off` whenever a whole header lies inside the extent.
 HdrFits(off, end) == off + NhdrSize <= end
 =============================================================================
